@@ -595,7 +595,7 @@ func (e *specEnv) call(ex SCall) Value {
 		if len(ex.Args) != len(sf.Params) {
 			e.fail("spec function %s: wrong number of arguments", fn.Name)
 		}
-		n := &specEnv{x: x, s: e.s, old: e.old, pkgPath: sf.PkgPath, vars: map[string]Value{}, lp: e.lp, depth: e.depth + 1}
+		n := &specEnv{x: x, s: e.s, old: e.old, pkgPath: sf.PkgPath, vars: map[string]Value{}, lp: e.lp, depth: e.depth + 1, pol: e.pol}
 		for i, p := range sf.Params {
 			pt := n.resolveType(p.Type)
 			n.vars[p.Name] = x.coerce(e.s, arg(i), pt)
@@ -681,9 +681,68 @@ func (e *specEnv) evalModTargets(ex SExpr) []modTarget {
 		}}}
 	}
 	switch ex := ex.(type) {
+	case SQuant:
+		// each(k T :: cond, target, ...) is written forall(k T :: cond ==> targets(...)): the union over all k with cond
+		if !ex.Forall {
+			e.fail("modifies: use forall(k T :: cond ==> target)")
+		}
+		imp, ok := ex.Body.(SBin)
+		if !ok || imp.Op != "==>" {
+			e.fail("modifies: forall body must be cond ==> target")
+		}
+		n := e.sub()
+		var bound, tguards []*Term
+		for _, b := range ex.Vars {
+			ts := b.Type
+			if ts == "" {
+				ts = "int"
+			}
+			t := e.resolveType(ts)
+			bv := c.BVar("modk_"+b.Name, sortOf(t))
+			bound = append(bound, bv)
+			n.vars[b.Name] = Value{T: t, Term: bv}
+			switch kindOf(t) {
+			case kString, kRef, kIface, kOpaque:
+				tguards = append(tguards, c.Ge(bv, c.Int(0)))
+			case kInt:
+				if isUnsigned(t) {
+					tguards = append(tguards, c.Ge(bv, c.Int(0)))
+				}
+			}
+		}
+		cond := c.And(c.And(tguards...), n.withPol(0).evalBool(imp.L))
+		var out []modTarget
+		for _, tg := range n.evalModTargets(imp.R) {
+			m := tg.match
+			out = append(out, modTarget{prefix: tg.prefix, match: func(ref, idx *Term) *Term {
+				return c.Exists(bound, c.And(cond, m(ref, idx)))
+			}})
+		}
+		return out
 	case SCall:
 		if fn, ok := ex.Fun.(SIdent); ok {
 			switch fn.Name {
+			default:
+				if ms := x.p.Contracts.ModSets[e.pkgPath+"::"+fn.Name]; ms != nil {
+					if len(ex.Args) != len(ms.Params) {
+						e.fail("modset %s: wrong number of arguments", fn.Name)
+					}
+					n := &specEnv{x: x, s: e.s, old: e.old, pkgPath: ms.PkgPath, vars: map[string]Value{}, lp: e.lp, depth: e.depth + 1}
+					for i, p := range ms.Params {
+						n.vars[p.Name] = x.coerce(e.s, e.ev(ex.Args[i]), n.resolveType(p.Type))
+					}
+					var out []modTarget
+					for _, t := range ms.Targets {
+						out = append(out, n.evalModTargets(t)...)
+					}
+					return out
+				}
+			case "targets":
+				var out []modTarget
+				for _, a := range ex.Args {
+					out = append(out, e.evalModTargets(a)...)
+				}
+				return out
 			case "fields":
 				return fieldsOf(e.ev(ex.Args[0]))
 			case "map":
